@@ -308,7 +308,7 @@ def run_edges(desc, tier, seed, res):
             pats = [(a, b) for a in EDGE_BYTES for b in EDGE_BYTES]
         else:
             pats = [(a,) + (m,) * (w - 2) + (b,) for a in EDGE_BYTES for b in EDGE_BYTES for m in (0x00, 0xFF)]
-        if tier == "quick" and len(pats) > 64:
+        if tier == "quick" and len(pats) > 64 and w > 2:
             r0 = rng(seed, "C09", "edges-pick", bankkey, name)
             keep = [p_ for p_ in pats if set(p_) <= {0x00, 0xFF, 0xFE}]
             pats = keep + r0.sample(pats, 64 - len(keep)) if len(keep) < 64 else keep[:64]
